@@ -28,6 +28,7 @@ var fileInputPkgs = map[string]bool{"cisco": true, "linux": true, "nsx": true, "
 func checkC20(p *Prog, r *Report) {
 	rulePanicAudit(p, r)
 	ruleBounds(p, r)
+	ruleGoroutineAborts(p, r)
 	ruleNilMapWrites(p, r)
 	ruleNilGuards(p, r)
 	ruleTypeAsserts(p, r)
